@@ -932,7 +932,7 @@ func support(o *hlib.Out, rng *hlib.Rng) {
 			side := "verify"
 			var r islh.VerifSplit
 			var pn string
-			if i%2 == 1 && (s.fast || i%8 == 1 || hlib.Thorough()) {
+			if i%2 == 1 && (s.fast || i%8 == 1) {
 				side = "sign"
 				pn = hlib.Recover(func() { r = s.p.VerifSplitSign(dg) })
 			} else {
